@@ -29,7 +29,7 @@ D, M_, N_ = 2, 4, 6
 
 def cases(tier, seed):
     rnd = random.Random(14000 + seed)
-    reps = 1 if tier == "quick" else 8
+    reps = 1 if tier == "quick" else 40
     for _ in range(reps):
         for strat, dist, zb, pb, db in itertools.product(["VariationalStrategy", "UnwhitenedVariationalStrategy"], DISTS, [[], [2]], [[], [2]], [[], [2]]):
             if tier == "quick" and rnd.random() < 0.4:
